@@ -47,9 +47,17 @@ What is proved.
   faithful model on serializers without sentinel (the incremental serializer used as a one-shot
   serializer, `add:` and `adds:` node identities): whenever `add` returns, it reports completion and both
   decoders return the tree; this ties the byte-exact model to C17's statement.
-  **Open** (`FaithfulStatementDefectFree`, a `def`, neither axiom nor hypothesis): the same for histories
-  with a sentinel inside the decidable defect-free region `DefectFree` (no `restore`, at most one sentinel
-  per addition, no sentinel-containing node shared).  What is missing is stated at the `def`.
+  `faithful_statement_fresh_region` — **unconditional** `Statement` for the faithful model on the decidable
+  region `DefectFreeFresh` ⊆ `DefectFree` (`defect_free_fresh_sub`): the sentinel is not the empty atom, no
+  `restore`, every addition contains the sentinel at most once, and an addition that contains it is built
+  with `NodePtr`s of its own (`add:`; sentinel-free additions may share nodes by content, `adds:`).  This is
+  how the crate's callers use the serializer (list building `(item . S)`, resuming inside a tree), with any
+  number of additions, sentinel as a whole tree included.  Proof: invariant of a waiting serializer (`RI`),
+  refinement of all contents and key contents when the pending sentinel is filled, equivariance of the
+  pending-stack semantics, `substFirst = substAll` with one sentinel pending (`add_step`, `run_region`).
+  **Open** (`FaithfulStatementDefectFree`, a `def`, neither axiom nor hypothesis): the rest of `DefectFree`,
+  i.e. additions that contain the sentinel *and* share nodes by content (each sentinel-containing node
+  still occurring once), and the empty atom as sentinel.
 * The salt (`TreeCache::salt`, `RandomState`) does not occur in the model; run-to-run equality of the
   real serializer's bytes is checked by the oracle (`inc_salt_independent`) and by the implementation
   side of the stream (a re-run with a new salt must reproduce the recorded bytes).
@@ -70,6 +78,7 @@ decoded (wrong) trees are in KNOWN_FINDINGS.jsonl and are recomputed by the orac
 -/
 import ClvmProofs.Lemmas.IncrementalWitness
 import ClvmProofs.Lemmas.TreeCacheRegion
+import ClvmProofs.Lemmas.TreeCacheMulti
 
 namespace Clvm.Props.C19
 open Clvm Clvm.Serde Clvm.Serde.Incremental Clvm.Serde.Backref Clvm.Incremental Clvm.Backref
@@ -244,6 +253,26 @@ of additions that ends completed decodes to the assembled tree.  (The general de
 `FaithfulStatementDefectFree`, open.) -/
 theorem faithful_statement_no_sentinel (adds : List (Bool × Tree)) : FaithfulDecodes none adds :=
   Clvm.TreeCacheProofs.faithful_statement_no_sentinel adds
+
+/-- **`Statement` for the faithful model, unconditional, on the region `DefectFreeFresh`** (sentinel not
+the empty atom; additions only; at most one sentinel per addition; an addition with a sentinel has
+`NodePtr`s of its own): every such history that ends completed decodes — both decoders, any continuation,
+any allocator state short of its limits — to the tree assembled from the additions, which has no sentinel
+left.  The policy hypothesis of `complete_decodes_partial` is *proved* here for the model that reproduces
+the crate byte for byte. -/
+theorem faithful_statement_fresh_region (m : Bytes) (adds : List (Bool × Tree))
+    (hreg : DefectFreeFresh m adds = true) : FaithfulDecodes (some m) adds :=
+  Clvm.TreeCacheProofs.faithful_statement_fresh_region m adds hreg
+
+/-- the region of `faithful_statement_fresh_region` lies inside the defect-free region of L, M, N -/
+theorem defect_free_fresh_sub (m : Bytes) (adds : List (Bool × Tree)) (h : DefectFreeFresh m adds = true) :
+    DefectFree (some m) adds = true := defectFreeFresh_sub m adds h
+
+/-- list building as the crate's tests do it (without re-using the `list` node): `(item . S)` three times,
+then the terminator, is in the region -/
+example : DefectFreeFresh Witness.M
+    [(false, .pair Witness.X Witness.S), (false, .pair Witness.Y Witness.S), (false, .pair Witness.X Witness.S),
+     (true, Tree.nil)] = true := by decide
 
 /-- the open obligation implies nothing more than what is proved when there is no sentinel (sanity:
 the proved part is an instance of the `def`) -/
